@@ -201,7 +201,9 @@ CONTEXTS = ["now + {} s", "now - {} s", "#2020-01-01# + {}", "#2020-01-01# - {}"
             "((m^2147483647)^2147483647)^3", "((s^-2147483647)^2147483647)^-2",
             # years at the edge of i32 with BC, timezone targets (the parsed query must serialise)
             "#jan 1, -2147483647 bc#", "#-2147483647 jan 1 bc#", "#jan 1, 2147483647 bc#", "now -> UTC", "{} -> EST",
-            "#2020-01-01# -> \"Europe/Paris\"", "{} -> digits 18446744073709551615"]
+            "#2020-01-01# -> \"Europe/Paris\"", "{} -> digits 18446744073709551615",
+            # operators inside a target whose constant comes out NaN / infinite
+            "{} -> 2 mod (-8)^2.5", "1 m -> (7 mod (-8)^2.5) m", "{} -> {} mod {}", "1 -> ({} or {})", "1 m -> ({} mod 3) m"]
 SUBSTANCES = ["water", "gold", "oxygen", "nitrogen", "H2O", "C2H6", "NaCl", "air", "2 kg water", "3 m oxygen", "1 mol gold", "5 liter water",
               "2 oxygen", "(1|0) water", "ln(-1) gold", "0 water", "1 kg nitrogen", "1 m oxygen", "iron / 2", "water * 3 s"]
 OFFSETS = ["+00:00", "+23:59", "-23:59", "+24:00", "+99:99", "+999999:00", "-999999:00", "+2147483647:00", "+596523:00", "+596524:00",
@@ -342,6 +344,15 @@ def is_expensive(text):
         exps.append(int(ds))
     if any(e >= 1000 for e in exps) or sum(exps) > 3000:
         return True
+    # a literal base raised to a literal exponent: the size of the result is bits(base) x exponent (`9223372036854775807^999`
+    # has 63000 bits although 999 < 1000; printing all the digits of such a number takes minutes in the probe profile)
+    for m in re.finditer(r"(\d[\d_\u2009]*(?:\.[\d_\u2009]+)?(?:[eE][eE]?[+-]?[\d_\u2009]+)?)\s*(?:\^|\*\*)\s*[(+\-\u2212\s]*(\d[\d_\u2009]*)", text):
+        b, e = _literal_value(m.group(1)), _literal_value(m.group(2))
+        if b is None or e is None:
+            return True
+        import math
+        if b == float("inf") or e == float("inf") or (b > 1 and e * math.log2(b) > 16384) or (0 < b < 1 and e * -math.log2(b) > 16384):
+            return True
     for m in re.finditer(r"(\^|\*\*|<<|>>|digits)\s*", text):
         rest = text[m.end():]
         rest = rest.lstrip(" (+-\u2212")
@@ -552,7 +563,7 @@ def run(tier, seed):
                 "long-lived contexts with text, span-tree and JSON rendering, health query after every history, plus a slice "
                 "through the real `rink -f -` binary; non-trivial = distinct input that got past the lexer")
     run.assumptions = ["cheap/expensive: an input is expensive iff it has >= 2 power/shift operators (not counting a name raised to a literal of at most two digits), an e-notation exponent >= 1000 "
-                       "(or exponents summing over 3000), or a power/shift/digits operand of more than 3 digits, or a shift count followed by a juxtaposed term; only cheap inputs "
+                       "(or exponents summing over 3000), or a power/shift/digits operand of more than 3 digits, or a literal base and exponent whose result exceeds 16384 bits, or a shift count followed by a juxtaposed term; only cheap inputs "
                        "are obliged to answer within the watchdog (re-run alone with 3x budget before it counts)",
                        "probe profile: opt-level 1, overflow checks and debug assertions on, 8 MiB stack, 4 GiB address space"]
     corpus = load_corpus()
